@@ -45,8 +45,9 @@ TCreate == Is("stmt") /\ Ev.q.k = "create" /\ Step
            /\ UNCHANGED <<committed, snap, sess>>
 
 TDrop == Is("stmt") /\ Ev.q.k = "drop" /\ Step
-         /\ (IF HasTab(Tx(Ev), Ev.q.tbl) THEN Ok(Ev.out) ELSE Ev.out.k = "err") = TRUE
-         /\ tabs' = (IF Ok(Ev.out) THEN LET i == TheTab(Tx(Ev), Ev.q.tbl) IN [tabs EXCEPT ![i].drop = @ \cup {Tx(Ev)}] ELSE tabs)
+         \* DROP TABLE IF EXISTS (ifx) on a name that is not there succeeds and changes nothing - no other table goes
+         /\ (IF HasTab(Tx(Ev), Ev.q.tbl) \/ Ev.q.ifx THEN Ok(Ev.out) ELSE Ev.out.k = "err") = TRUE
+         /\ tabs' = (IF Ok(Ev.out) /\ HasTab(Tx(Ev), Ev.q.tbl) THEN LET i == TheTab(Tx(Ev), Ev.q.tbl) IN [tabs EXCEPT ![i].drop = @ \cup {Tx(Ev)}] ELSE tabs)
          /\ UNCHANGED <<committed, snap, sess>>
 
 \* ALTER TABLE t ALTER COLUMN c SET | DROP NOT NULL (autocommit): from then on the column does / does not admit NULL.
@@ -114,7 +115,11 @@ MatchesC(C, tbls) ==
   \A i \in 1..Len(tbls) :
     LET cand == {j \in 1..Len(tabs) : tabs[j].name = tbls[i].name /\ TabVisC(C, tabs[j])} IN
     IF cand = {} THEN tbls[i].out.k = "err"
-    ELSE IF tbls[i].out.k = "rows" THEN BagEq(TabRowsC(C, tabs[CHOOSE j \in cand : TRUE]), tbls[i].out.rows) ELSE FALSE
+    ELSE IF tbls[i].out.k # "rows" THEN FALSE
+    ELSE LET exp == TabRowsC(C, tabs[CHOOSE j \in cand : TRUE]) obs == tbls[i].out.rows IN
+         \* a big table is read by id only (proj; ids are distinct in those workloads): same ids, same number of rows
+         IF tbls[i].proj THEN Len(exp) = Len(obs) /\ {exp[j][1] : j \in 1..Len(exp)} = {obs[j][1] : j \in 1..Len(obs)}
+         ELSE BagEq(exp, obs)
 \* finding CheckpointNotAtomic: a crash inside Pager::flush (checkpoint, VACUUM), after dirty pages were written and
 \* before the log was truncated, replays the log on top of pages that already contain its effects (logical redo is
 \* not idempotent): the outcome of such a crash point is not constrained while the finding is recorded
@@ -134,7 +139,7 @@ SameTables(a, b) == Len(a) = Len(b) /\ \A i \in 1..Len(a) :
 ProbeOk(p) == IF Len(p) # 3 THEN FALSE
               ELSE Ok(p[1]) /\ Ok(p[2]) /\ p[3].k = "rows" /\ p[3].rows = << <<I(1), I(2)>> >>
 RepeatOk(e) == IF Unconstrained(e) THEN TRUE
-               ELSE Ok(e.again_open) /\ SameTables(e.tables, e.again) /\ ProbeOk(e.probe)
+               ELSE Ok(e.again_open) /\ (IF e.again_same THEN TRUE ELSE SameTables(e.tables, e.again)) /\ ProbeOk(e.probe)
 \* C08: the recovered file is structurally sound (the audit of the whole file found nothing: trees well-formed, no page
 \* owned twice), and a crash inside recovery itself (depth 2: the files as they were after the j-th write of that
 \* recovery, opened by a third process) opens, is sound and holds the same contents as the uninterrupted recovery
@@ -145,7 +150,9 @@ NestedOk(e) == IF Unconstrained(e) \/ ~Ok(e.open) THEN TRUE
                       IF "CheckpointNotAtomic" \in Dev /\ n.inflush THEN TRUE
                       ELSE /\ Ok(n.open) /\ n.sound = <<>>
                            /\ (IF n.same THEN TRUE ELSE SameTables(e.tables, n.tables))
-TCrashRead == Is("crashread") /\ Step /\ (CrashOk(Ev) = TRUE) /\ (RepeatOk(Ev) = TRUE) /\ (SoundOk(Ev) = TRUE) /\ (NestedOk(Ev) = TRUE) /\ UNCHANGED dbvars
+\* which requirement a rejected crash read breaks is printed (a rejected trace has no counterexample to read it from)
+Chk(name, c) == IF c = TRUE THEN TRUE ELSE Print(<<"CRASHREAD-FAILED", name, Ev.k>>, FALSE)
+TCrashRead == Is("crashread") /\ Step /\ Chk("contents", CrashOk(Ev)) /\ Chk("reopen", RepeatOk(Ev)) /\ Chk("sound", SoundOk(Ev)) /\ Chk("nested", NestedOk(Ev)) /\ UNCHANGED dbvars
 
 TNext == TCrashRead \/ TReset \/ TAlter \/ TBegin \/ TSelect \/ TDml \/ TBatch \/ TCreate \/ TDrop \/ TIndex \/ TOpaque
          \/ TCommit \/ TRollback \/ TVacuum \/ TZombie \/ TZCommit \/ TReopen \/ TNoop \/ TSizes
